@@ -162,7 +162,10 @@ func c02Strata() []*gast.Grammar {
 		mk(r("S", gast.C(gast.S(gast.Lab("a", gast.Ref("B")), gast.L("!"), gast.A(gast.Star(gast.Dot()), 1, mon.Spec{})), gast.S(gast.Lab("a", gast.Ref("B")), gast.L("?"), gast.Lab("b", gast.Ref("T")), gast.A(gast.Star(gast.Dot()), 2, mon.Spec{})))),
 			r("B", gast.A(gast.S(gast.Plus(gast.Cl(gast.Chars("xé"))), gast.L("\n"), gast.Star(gast.Cl(gast.Chars("é世")))), 3, mon.Spec{})),
 			r("T", gast.A(gast.Plus(gast.Cl(gast.Chars("zé\n"))), 4, mon.Spec{}))),
-		// predicates whose block returns an error next to its boolean: the boolean alone decides
+		// a label bound inside a parenthesised action that is an item of a sequence belongs to that
+		// sequence; the inner action is reached a second time at the same offset from another start
+		mk(r("S", gast.C(gast.A(gast.S(gast.Lab("a", gast.Ref("A")), gast.L("z")), 1, mon.Spec{}), gast.A(gast.S(gast.L("x"), gast.Lab("a", gast.Ref("A"))), 2, mon.Spec{}), gast.Star(gast.Dot()))),
+			r("A", gast.A(gast.S(gast.Star(gast.L("x")), gast.A(gast.Lab("b", gast.L("y")), 3, mon.Spec{}), gast.AndC(5, mon.Spec{})), 4, mon.Spec{R: 3}))),
 		mk(r("S", gast.Star(gast.C(gast.A(gast.S(gast.AndC(4, mon.Spec{E: 1}), gast.L("a")), 1, mon.Spec{}), gast.A(gast.S(gast.NotC(5, mon.Spec{E: 1}), gast.L("b")), 2, mon.Spec{}),
 			gast.A(gast.S(gast.NotC(6, mon.Spec{E: 1, B: 1}), gast.AndC(7, mon.Spec{E: 3, B: 1}), gast.L("c")), 8, mon.Spec{}), gast.A(gast.Dot(), 3, mon.Spec{}))))),
 		// a label of the enclosing sequence is used again inside the last (and inside a middle)
